@@ -95,7 +95,7 @@ Lemma unser_S (f : nat) (e : env) (s : schema) (v : gval) :
         end
     | SOneOf types ik field inlined =>
         match v with
-        | VNil => Err (perr ERepr)
+        | VNil => Err (cerr ERepr)
         | VMap _ _ kvs =>
             
             if forallb (fun kv => match fst kv with VStr TStr _ => true | _ => false end) kvs then
@@ -215,7 +215,7 @@ Lemma oneof_find_S (f : nat) (e : env) (types : list (okey * schema)) (ik : bool
                       | None => Err (cerr EKey)
                       | Some (_, member) =>
                           let clone := VMap t_str_map false (if inlined then kvs else smap_del field kvs) in
-                          _ <- rewrap true (compat f e member clone) ;;
+                          _ <- rewrap_path (compat f e member clone) ;;
                           Ok (key, member, clone)
                       end
                   end
@@ -373,17 +373,17 @@ Lemma compat_S (f : nat) (e : env) (s : schema) (v : gval) :
             _ <- forM_ (fun kv => match alookup (fst kv) props with
                                   | Some p =>
                                       seg (fst kv)
-                                        (_ <- rewrap true (compat f e (p_type p) (snd kv)) ;;
+                                        (_ <- rewrap_path (compat f e (p_type p) (snd kv)) ;;
                                          if p_disabled p then Err (cerr EDisabled) else Ok tt)
                                   | None => Err (cerr EKey)
                                   end) r ;;
             forM_ (fun np => if p_required (snd np)
                              then match alookup (fst np) r with
-                                  | None | Some VNil => Err (cerr EPresence)
+                                  | None | Some VNil => Err (cerr_at [fst np] EPresence)
                                   | Some _ => Ok tt
                                   end
                              else Ok tt) props
-        | None => _ <- rewrap true (unser f e s v) ;; Ok tt
+        | None => _ <- rewrap_path (unser f e s v) ;; Ok tt
         end
     | SOneOf types ik field inlined =>
         match is_str_any_map v with
